@@ -7,21 +7,29 @@ from plotds import DS, NAN, PINF, NINF, tok_out, finite, label, prettify
 PROP = 'C17'
 LEAN_MODULES = ['XyzProofs.Props.C17']
 THEOREMS = ['PlotPrep.c17_series_count_order_labels', 'PlotPrep.c17_points', 'PlotPrep.c17_points_carried',
-            'PlotPrep.c17_points_mem', 'PlotPrep.c17_all_nan_series_empty', 'PlotPrep.c17_hist_values',
+            'PlotPrep.c17_points_mem', 'PlotPrep.c17_mask_arrays', 'PlotPrep.c17_mask_ignores_carried',
+            'PlotPrep.c17_point_kept_iff', 'PlotPrep.c17_all_nan_series_empty', 'PlotPrep.c17_hist_values',
             'PlotPrep.c17_heatmap_mesh', 'PlotPrep.c17_panels', 'PlotPrep.c17_colour_structure_partial',
+            'PlotPrep.c17_colour_limits', 'PlotPrep.c17_figure_limits',
             'PlotPrep.c17_legend_or_colorbar', 'PlotPrep.c17_pure']
-ANCHORS = ['maskIsBothFinite', 'autoLegend']
+ANCHORS = ['maskIsBothFinite', 'maskArrays', 'vminDefaulted', 'vmaxDefaulted', 'autoLegend']
 RULE = ("each case = (explicit dataset: 1-4 dims of size 1-5 (up to 13 series in a boundary slice), numeric/str "
         "coordinates in arbitrary order, variables with shuffled dimension order, cells = distinct dyadic floats / NaN / "
         "+-inf incl. all-NaN series; a call of lineplot / scatter / histogram / heatmap or their auto_* forms with z or "
-        "multi-variable y, optional y_err/x_err/c, row/col; options colors/colormap/log/reverse/legend/colorbar/markers/"
-        "lines/log axes/limits). The real function is called on the Agg backend, every Line2D / PathCollection / Polygon "
+        "multi-variable y, optional y_err/x_err/c with a NaN/inf pattern of their own (non-finite where x and y are "
+        "finite, and the reverse), row/col; options colors/colormap/log/reverse/legend/colorbar/markers/lines/log axes/"
+        "zlims and explicit colour limits vmin/vmax (0, 0.0, negative, inside and outside the data range, one or both) "
+        "for colour-mapped lines, scatter c= and heat maps; z coordinates on both sides of zero). The real function is "
+        "called on the Agg backend, every Line2D / error-bar collection / PathCollection (with its norm) / Polygon "
         "/ QuadMesh is read back and each drawn float decoded by bit pattern to the cell it came from; compared with "
         "the Lean model and with an independent pure-python oracle. non-trivial = at least two series or panels, or a "
         "non-finite cell, or a heat map; distinct by full case description")
 TRUSTED = ["matplotlib (Agg): that artists hold the arrays they were given and render them; Axes.hist / np.histogram "
            "binning numerics; colour-map and Normalize numerics (colours are compared with cmap(norm(q)) evaluated by "
-           "matplotlib in the harness, the model only says which q)",
+           "matplotlib in the harness, the model only says which q and where each limit of the norm comes from)",
+           "matplotlib keeps, but does not render, a scatter point whose colour value is NaN/inf (the colour map has no "
+           "colour for it; its offsets are masked) and holds an error bar of NaN/inf length as an empty segment: such a "
+           "point counts as drawn (it is in the artist's data), its bar as absent",
            "xarray selection/broadcast primitives (modelled as index arithmetic, validated by the diff only)",
            "decoding of drawn floats by exact bit pattern through an injective table of the dataset's values"]
 ASSUMPTIONS = ["dataset values are pairwise distinct finite floats or NaN/+-inf, coordinates are unique per dimension"]
@@ -34,10 +42,13 @@ PARTIAL = {
     'c17_colour_structure_partial': "full statement: colour i = cmap(norm(q_i)) with the norm fixed by the min/max of the "
                                     "quantity or by the given limits. Proved: which q_i drives series i (its own z coordinate / "
                                     "its own c value / its relative position for a non-numeric coordinate), for any number of "
-                                    "series, with cmap and norm abstract. Missing in Lean: that the norm's limits are the "
-                                    "finite min/max of the quantity over the whole dataset resp. zlims/vmin/vmax (floats are "
-                                    "opaque in the model); checked by execution: colours are compared with "
-                                    "cmap(Normalize(lo, hi)(q)) evaluated by matplotlib, and heat-map limits with the data",
+                                    "series, with cmap and norm abstract; and where each end of the norm comes from "
+                                    "(c17_colour_limits: the vmin/vmax given, whatever its value; else the zlims entry; else "
+                                    "the data range - from the extracted defaulting tests). Missing in Lean: the values "
+                                    "themselves, i.e. that the data range is the finite min/max of the quantity over the whole "
+                                    "dataset (floats are opaque in the model); checked by execution: colours are compared with "
+                                    "cmap(Normalize(lo, hi)(q)) evaluated by matplotlib, the norm limits of scatter "
+                                    "collections and heat-map meshes with the given limits / the finite data range",
     'c17_pure': "the model threads the dataset through every preparation step and the theorem shows it is returned "
                 "unchanged; on the real code purity is observed (ds.identical(copy) after every call), not proved",
 }
@@ -68,9 +79,74 @@ class Ids:
 
 
 def _var(rng, name, dims, sizes, ids, pattern):
+    """pattern: those of plotds.gen_cells, or 'pinf' (NaN and +inf only: an error bar length cannot be negative)"""
     n = 1
     for d in dims: n *= sizes[d]
-    return {'name': name, 'dims': list(dims), 'cells': plotds.gen_cells(rng, n, ids, pattern)}
+    cells = plotds.gen_cells(rng, n, ids, 'inf' if pattern == 'pinf' else pattern)
+    if pattern == 'pinf': cells = [PINF if x == NINF else x for x in cells]
+    return {'name': name, 'dims': list(dims), 'cells': cells}
+
+
+def _crange(desc, name):
+    """(min, max) of the finite values of a variable / numeric coordinate of a dataset description; None if there are
+    fewer than two different ones (no colour scale to speak of)"""
+    vals = None
+    for d in desc['dims']:
+        if d['name'] == name: vals = [float(v) for v in d['coords'] if plotds.is_num(v)]
+    for v in desc['vars']:
+        if v['name'] == name: vals = [plotds.val(x, desc.get('off', 0)) for x in v['cells'] if x >= 0]
+    if not vals or min(vals) == max(vals): return None
+    return min(vals), max(vals)
+
+
+def gen_limits(rng, crange):
+    """explicit colour limits {'vmin': .., 'vmax': ..} (either may be left out): the numbers Python calls false (0, 0.0),
+    negative values, values inside the data range `crange` and outside of it. The interval that results (given limit,
+    else the end of the data range) is never empty, so the call stays valid."""
+    dlo, dhi = crange if crange else (None, None)
+
+    def pick_min():
+        k = rng.choice(['none', 'zero', 'zero', 'neg', 'inside', 'below'])
+        if k == 'none': return None
+        if k == 'zero': return rng.choice([0, 0.0])
+        if k == 'neg': return rng.choice([-3.5, -40.0, -1])
+        if crange is None: return rng.choice([0, -2.25])
+        if k == 'inside': return dlo + (dhi - dlo) * rng.choice([0.25, 0.375, 0.5])
+        return dlo - rng.choice([1.5, 20.0])
+
+    def pick_max():
+        k = rng.choice(['none', 'zero', 'zero', 'neg', 'inside', 'above', 'above'])
+        if k == 'none': return None
+        if k == 'zero': return rng.choice([0, 0.0])
+        if k == 'neg': return rng.choice([-0.5, -2, -1.25])
+        if crange is None: return rng.choice([7.5, 300])
+        if k == 'inside': return dlo + (dhi - dlo) * rng.choice([0.625, 0.75, 0.875])
+        return dhi + rng.choice([7.25, 100.0])
+
+    if rng.random() < 0.12:          # an upper limit of zero needs the lower one below it
+        return {'vmin': rng.choice([-3.5, -40.0, -1]), 'vmax': rng.choice([0, 0.0])}
+    for _ in range(200):
+        vmin, vmax = pick_min(), pick_max()
+        if vmin is None and vmax is None: continue
+        lo = vmin if vmin is not None else dlo
+        hi = vmax if vmax is not None else dhi
+        if lo is None or hi is None or not lo < hi: continue
+        return {k: v for k, v in (('vmin', vmin), ('vmax', vmax)) if v is not None}
+    return {}
+
+
+def limit_class(v, crange):
+    if v is None: return 'none'
+    if v == 0: return 'zero'
+    if v < 0: return 'negative'
+    if crange and crange[0] < v < crange[1]: return 'inside'
+    return 'outside'
+
+
+def _signed_coords(rng, n):
+    """coordinate values on both sides of zero (and zero itself): multiples of 1/8, which no data value is"""
+    vals = [k / 8 for k in rng.sample(range(-40, 41), n)]
+    return sorted(vals) if rng.random() < 0.6 else vals
 
 
 def _shuffled(rng, l):
@@ -85,7 +161,8 @@ def _grid_dims(rng, grid):
     return out
 
 
-def gen_opts(rng, kind, has_z, z_num, has_c, nser, multi):
+def gen_opts(rng, kind, has_z, z_num, has_c, nser, multi, crange=None):
+    """crange: finite range of the quantity a colour map would be applied to (c variable, else numeric z coordinate)"""
     o = {}
     colourable = has_z and not multi
     r = rng.random()
@@ -97,9 +174,15 @@ def gen_opts(rng, kind, has_z, z_num, has_c, nser, multi):
         if rng.random() < 0.5: o['colormap'] = rng.choice(['viridis', 'plasma', 'xyz'])
         if rng.random() < 0.25: o['colormap_reverse'] = True
         if rng.random() < 0.2 and (has_c or z_num): o['colormap_log'] = True
-        if rng.random() < 0.2:
+        r = rng.random()
+        if r < 0.1:
             if has_c: o['vmin'], o['vmax'] = 2.0, 50.0
             elif z_num: o['zlims'] = (90.0, 400.0)
+        elif r < 0.5 and (has_c or z_num):
+            if not has_c and rng.random() < 0.2:       # zlims and an explicit limit together: the explicit one counts
+                o['zlims'] = (90.0, 400.0); crange = (90.0, 400.0)
+            o.update(gen_limits(rng, crange))
+            if any(o.get(k) is not None and o[k] <= 0 for k in ('vmin', 'vmax')): o.pop('colormap_log', None)
     lg = rng.random()
     if lg < 0.15 and nser > 1: o['legend'] = True
     elif lg < 0.3: o['legend'] = False
@@ -128,7 +211,7 @@ def gen_xy(rng, kind, big=False, blank=None, grid=None, variant=None, nz=None):
     variant = variant or rng.choice(['z', 'z', 'z', 'single', 'multi', 'x2d'])
     if kind == 'scatter' and variant == 'x2d': variant = 'z'
     nx = rng.choice([1, 2, 3, 3, 4, 5])
-    zkind = rng.choice(['int', 'float', 'str'])
+    zkind = rng.choice(['int', 'float', 'str', 'signed'])
     nz = nz or (rng.choice([10, 11, 12, 13]) if big else rng.choice([1, 2, 2, 3, 3, 4]))
     dims = [('x', nx)]
     if variant in ('z', 'x2d'): dims.append(('z', nz))
@@ -140,8 +223,12 @@ def gen_xy(rng, kind, big=False, blank=None, grid=None, variant=None, nz=None):
     dd = []
     for bi, (d, n) in enumerate(dims):
         k = zkind if d == 'z' else rng.choice(['int', 'float']) if d in ('x', 'w') else rng.choice(['int', 'float', 'str'])
-        dd.append({'name': d, 'coords': plotds.gen_coords(rng, n, k, bi)})
+        dd.append({'name': d, 'coords': _signed_coords(rng, n) if k == 'signed' else plotds.gen_coords(rng, n, k, bi)})
     pat = rng.choice(['full', 'nan', 'nan', 'inf'])
+    # carried variables have their own missing-data pattern, not a subset of y's: a point with finite (x, y) keeps
+    # being drawn when its error / colour value is NaN or infinite
+    epat = lambda: rng.choice(['full', 'full', 'nan', 'pinf'])
+    cpat = lambda: rng.choice(['full', 'full', 'nan', 'inf'])
     call = {'x': 'x', 'y': 'y', 'z': None, 'c': None, 'y_err': None, 'x_err': None, 'row': None, 'col': None}
     for d, _ in gd:
         call['row' if d == 'r' else 'col'] = d
@@ -174,21 +261,25 @@ def gen_xy(rng, kind, big=False, blank=None, grid=None, variant=None, nz=None):
         if kind == 'lineplot':
             if rng.random() < 0.3:
                 sub = [d for d in ydims if d == 'x' or rng.random() < 0.6]
-                vs.append(_var(rng, 'ye', _shuffled(rng, sub), sizes, ids, 'full')); call['y_err'] = 'ye'
-            if rng.random() < 0.15:
-                vs.append(_var(rng, 'xe', _shuffled(rng, ydims), sizes, ids, 'full')); call['x_err'] = 'xe'
+                vs.append(_var(rng, 'ye', _shuffled(rng, sub), sizes, ids, epat())); call['y_err'] = 'ye'
+            if rng.random() < 0.2:
+                vs.append(_var(rng, 'xe', _shuffled(rng, ydims), sizes, ids, epat())); call['x_err'] = 'xe'
             if variant in ('z', 'x2d') and rng.random() < 0.25:
                 cd = ['z'] + [d for d, _ in gd if rng.random() < 0.5]
-                vs.append(_var(rng, 'cv', _shuffled(rng, cd), sizes, ids, 'full')); call['c'] = 'cv'
-        if kind == 'scatter' and rng.random() < 0.35:
+                vs.append(_var(rng, 'cv', _shuffled(rng, cd), sizes, ids, rng.choice(['full', 'full', 'full', 'nan', 'inf']))); call['c'] = 'cv'
+        if kind == 'scatter' and rng.random() < 0.4:
             sub = [d for d in ydims if rng.random() < 0.8] or ['x']
-            vs.append(_var(rng, 'cv', _shuffled(rng, sub), sizes, ids, 'full')); call['c'] = 'cv'
+            vs.append(_var(rng, 'cv', _shuffled(rng, sub), sizes, ids, cpat())); call['c'] = 'cv'
     desc = {'dims': dd, 'vars': vs, 'off': rng.randrange(509)}
     if call['z'] and (blank if blank is not None else rng.random() < 0.3):
         plotds.blank_slice(desc, 'y', 'z', rng.randrange(sizes['z']))
     has_z = call['z'] is not None
     nser = sizes.get('z', 1) if has_z else (len(call['y']) if isinstance(call['y'], list) else 1)
-    opts = gen_opts(rng, kind, has_z, zkind != 'str', call['c'] is not None, nser, variant == 'multi')
+    opts = gen_opts(rng, kind, has_z, zkind != 'str', call['c'] is not None, nser, variant == 'multi',
+                    crange=_crange(desc, call['c'] or call['z']) if (call['c'] or call['z']) else None)
+    if zkind == 'signed' and not call['c']: opts.pop('colormap_log', None)      # LogNorm of a coordinate <= 0
+    if call['c'] and not any(x >= 0 for v in vs if v['name'] == call['c'] for x in v['cells']):
+        opts.pop('colormap_log', None)                                          # LogNorm of no finite value at all
     return {'kind': kind, 'auto': False, 'ds': desc, 'call': call, 'opts': opts}
 
 
@@ -214,7 +305,8 @@ def gen_hist(rng, grid=None):
     desc = {'dims': dd, 'vars': vs, 'off': rng.randrange(509)}
     if variant == 'z' and rng.random() < 0.2 and sizes['z'] > 1:
         plotds.blank_slice(desc, 'v', 'z', rng.randrange(sizes['z']))
-    opts = gen_opts(rng, 'histogram', variant == 'z', zkind != 'str', False, sizes.get('z', len(names)), variant == 'multi')
+    opts = gen_opts(rng, 'histogram', variant == 'z', zkind != 'str', False, sizes.get('z', len(names)), variant == 'multi',
+                    crange=_crange(desc, 'z') if variant == 'z' else None)
     return {'kind': 'histogram', 'auto': False, 'ds': desc, 'call': call, 'opts': opts}
 
 
@@ -235,21 +327,27 @@ def gen_heat(rng, grid=None):
     if rng.random() < 0.4: opts['colorbar'] = False
     if rng.random() < 0.4: opts['colormap'] = rng.choice(['viridis', 'plasma'])
     if rng.random() < 0.2: opts['colormap_log'] = True
-    return {'kind': 'heatmap', 'auto': False, 'ds': {'dims': dd, 'vars': vs, 'off': rng.randrange(509)}, 'call': call, 'opts': opts}
+    desc = {'dims': dd, 'vars': vs, 'off': rng.randrange(509)}
+    if rng.random() < 0.4:
+        opts.update(gen_limits(rng, _crange(desc, 'h')))
+        if any(opts.get(k) is not None and opts[k] <= 0 for k in ('vmin', 'vmax')): opts.pop('colormap_log', None)
+    return {'kind': 'heatmap', 'auto': False, 'ds': desc, 'call': call, 'opts': opts}
 
 
 def gen_auto(rng, kind):
     """auto_* entry points: the arrays are described through the dataset auto_xyz_ds is documented to build"""
     ids = Ids()
     pat = rng.choice(['full', 'nan', 'inf'])
+    off = None
     if kind in XY_KINDS:
         nx = rng.choice([2, 3, 4, 5])
         nz = rng.choice([n for n in (1, 2, 3, 4) if n != nx])
         dd = [{'name': 'x', 'coords': plotds.gen_coords(rng, nx, 'float', 0)}, {'name': 'z', 'coords': list(range(nz))}]
         vs = [_var(rng, 'y', ['z', 'x'], {'x': nx, 'z': nz}, ids, pat)]
         call = {'x': 'x', 'y': 'y', 'z': 'z', 'c': None, 'y_err': None, 'x_err': None, 'row': None, 'col': None}
-        opts = gen_opts(rng, kind, True, True, False, nz, False)
-        opts.pop('zlims', None)
+        opts = gen_opts(rng, kind, True, True, False, nz, False, crange=(0.0, nz - 1.0) if nz > 1 else None)
+        if 'zlims' in opts:            # the z values here are 0, 1, ..: limits chosen for the (90, 400) window do not apply
+            for k in ('zlims', 'vmin', 'vmax'): opts.pop(k, None)
         if opts.get('colormap_log'): opts.pop('colormap_log')     # z = 0.. : LogNorm undefined
     elif kind == 'histogram':
         shape = [rng.choice([2, 3, 4]) for _ in range(rng.choice([1, 2, 3]))]
@@ -264,7 +362,9 @@ def gen_auto(rng, kind):
         vs = [_var(rng, 'x', ['y', 'z'], {'y': ny, 'z': nz}, ids, pat)]
         call = {'x': 'y', 'y': 'z', 'z': 'x', 'row': None, 'col': None}
         opts = {'colorbar': rng.random() < 0.6}
-    return {'kind': kind, 'auto': True, 'ds': {'dims': dd, 'vars': vs, 'off': rng.randrange(509)}, 'call': call, 'opts': opts}
+        off = rng.randrange(509)
+        if rng.random() < 0.3: opts.update(gen_limits(rng, _crange({'dims': dd, 'vars': vs, 'off': off}, 'x')))
+    return {'kind': kind, 'auto': True, 'ds': {'dims': dd, 'vars': vs, 'off': rng.randrange(509) if off is None else off}, 'call': call, 'opts': opts}
 
 
 def _tokens_ok(c):
@@ -306,7 +406,7 @@ def boundary(rng):
             ids = Ids(); ids.n = 400
             zs = len(next(d for d in c['ds']['dims'] if d['name'] == 'z')['coords'])
             c['ds']['vars'].append(_var(rng, 'cv', ['z'], {'z': zs}, ids, 'full')); c['call']['c'] = 'cv'
-        c['opts'] = {k: v for k, v in c['opts'].items() if k not in ('colors',)}
+        c['opts'] = {k: v for k, v in c['opts'].items() if k not in ('colors',) + _LIMIT_OPTS}
         out.append(c)
     for _ in range(3):
         c = gen_xy(rng, 'scatter', grid='none', variant=rng.choice(['z', 'single']))
@@ -315,7 +415,7 @@ def boundary(rng):
             yd = c['ds']['vars'][0]['dims']
             sizes = {d['name']: len(d['coords']) for d in c['ds']['dims']}
             c['ds']['vars'].append(_var(rng, 'cv', list(yd), sizes, ids, 'full')); c['call']['c'] = 'cv'
-        c['opts'] = {k: v for k, v in c['opts'].items() if k not in ('colors', 'colorbar')}
+        c['opts'] = {k: v for k, v in c['opts'].items() if k not in ('colors', 'colorbar') + _LIMIT_OPTS}
         out.append(c)
     for g in ('none', 'none', 'row', 'col', 'both'):
         c = gen_heat(rng, grid=g)
@@ -324,6 +424,81 @@ def boundary(rng):
         out.append(gen_hist(rng, grid=g))
     for kind in ('lineplot', 'scatter', 'histogram', 'heatmap'):
         out.append(gen_auto(rng, kind))
+    out += boundary_carried(rng) + boundary_limits(rng)
+    return out
+
+
+_LIMIT_OPTS = ('vmin', 'vmax', 'zlims', 'colormap_log')     # chosen for one colour quantity: dropped when it is replaced
+
+
+def _numeric_z(rng, kind, **kw):
+    for _ in range(200):
+        c = gen_xy(rng, kind, variant='z', **kw)
+        z = next(d for d in c['ds']['dims'] if d['name'] == 'z')['coords']
+        if all(plotds.is_num(v) for v in z) and len(set(z)) > 1 and not c['call']['c']: return c
+    raise RuntimeError('no case with a numeric z coordinate generated')
+
+
+def _carry(c, rng, key, name, cells_of):
+    """give case `c` the carried variable `name` (call argument `key`) over the dimensions of y; cells_of(n) -> cells"""
+    sizes = {d['name']: len(d['coords']) for d in c['ds']['dims']}
+    y = next(v for v in c['ds']['vars'] if v['name'] == 'y')
+    c['ds']['vars'] = [v for v in c['ds']['vars'] if v['name'] != name]
+    n = 1
+    for d in y['dims']: n *= sizes[d]
+    c['ds']['vars'].append({'name': name, 'dims': list(y['dims']), 'cells': cells_of(n)})
+    c['call'][key] = name
+
+
+def boundary_carried(rng):
+    """y finite everywhere, the error / colour variable not: every (x, y) pair must still be drawn; and the reverse
+    (y with gaps, carried variable complete)"""
+    out = []
+    for kind, keys in (('lineplot', [('y_err', 'ye')]), ('lineplot', [('x_err', 'xe')]),
+                       ('lineplot', [('y_err', 'ye'), ('x_err', 'xe')]), ('scatter', [('c', 'cv')])):
+        for y_full in (True, False):
+            c = gen_xy(rng, kind, grid='none', variant='z', blank=False)
+            for k in ('c', 'y_err', 'x_err'): c['call'][k] = None
+            c['ds']['vars'] = [v for v in c['ds']['vars'] if v['name'] in ('y', 'xv')]
+            ids = Ids(); ids.n = 300
+            y = next(v for v in c['ds']['vars'] if v['name'] == 'y')
+            if y_full: y['cells'] = [x if x >= 0 else next(ids) for x in y['cells']]
+            for j, (key, name) in enumerate(keys):
+                def cells_of(n, j=j):
+                    if not y_full: return [next(ids) for _ in range(n)]
+                    bad = [NAN, PINF] if kind == 'lineplot' else [NAN, PINF, NINF]
+                    out_ = [next(ids) for _ in range(n)]
+                    for k in range(j, n, 3): out_[k] = bad[(k // 3) % len(bad)]
+                    return out_
+                _carry(c, rng, key, name, cells_of)
+            c['opts'] = {k: v for k, v in c['opts'].items() if k not in ('colors', 'colorbar') + _LIMIT_OPTS}
+            out.append(c)
+    return out
+
+
+def boundary_limits(rng):
+    """explicit colour limits that Python calls false (0, 0.0), alone and with the other limit, negative limits, limits
+    inside the data range: line colours from a numeric z, scatter coloured by a variable, heat map"""
+    out = []
+    lims = [{'vmin': 0}, {'vmin': 0.0, 'vmax': 1000.0}, {'vmin': -3.5, 'vmax': 0}, {'vmin': -40.0, 'vmax': -0.5}, 'inside']
+
+    def put(c, lim, name):
+        if lim == 'inside':
+            lo, hi = _crange(c['ds'], name) or (0.0, 1.0)
+            lim = {'vmin': lo + (hi - lo) * 0.25, 'vmax': lo + (hi - lo) * 0.75}
+        c['opts'] = {k: v for k, v in c['opts'].items() if k not in _LIMIT_OPTS}
+        c['opts'].update(lim)
+        return c
+    for lim in lims:
+        c = _numeric_z(rng, 'lineplot', grid='none')
+        c['opts'] = {'colors': True}
+        out.append(put(c, lim, 'z'))
+        c = gen_xy(rng, 'scatter', grid='none', variant='z')
+        c['opts'] = {k: v for k, v in c['opts'].items() if k not in ('colors', 'colorbar')}
+        ids = Ids(); ids.n = 300
+        _carry(c, rng, 'c', 'cv', lambda n: [next(ids) for _ in range(n)])
+        out.append(put(c, lim, 'cv'))
+        out.append(put(gen_heat(rng, grid=rng.choice(['none', 'none', 'row'])), lim, 'h'))
     return out
 
 
@@ -353,10 +528,11 @@ def gen_scatter_free2d(rng):
     vs = [_var(rng, 'y', rng.choice(orders), sizes, ids, pat), _var(rng, 'xv', rng.choice(orders), sizes, ids, rng.choice(['full', 'nan']))]
     call = {'x': 'xv', 'y': 'y', 'z': None, 'c': None, 'y_err': None, 'x_err': None, 'row': None, 'col': None}
     if rng.random() < 0.7:
-        vs.append(_var(rng, 'cv', rng.choice(orders), sizes, ids, 'full')); call['c'] = 'cv'
+        vs.append(_var(rng, 'cv', rng.choice(orders), sizes, ids, rng.choice(['full', 'full', 'nan', 'inf']))); call['c'] = 'cv'
     if len({tuple(v['dims']) for v in vs}) == 1: vs[1]['dims'] = list(reversed(vs[0]['dims']))
     desc = {'dims': dd, 'vars': vs, 'off': rng.randrange(509)}
-    opts = gen_opts(rng, 'scatter', False, True, call['c'] is not None, 1, False)
+    opts = gen_opts(rng, 'scatter', False, True, call['c'] is not None, 1, False, crange=_crange(desc, 'cv') if call['c'] else None)
+    if call['c'] and not any(x >= 0 for x in vs[-1]['cells']): opts.pop('colormap_log', None)
     return {'kind': 'scatter', 'auto': False, 'ds': desc, 'call': call, 'opts': opts}
 
 
@@ -383,6 +559,30 @@ def cases(ctx):
         ctx.count('colour', 'c' if c['call'].get('c') else 'colors=True' if c['opts'].get('colors') is True else 'list' if c['opts'].get('colors') else 'default')
         cells = [x for v in c['ds']['vars'] for x in v['cells']]
         ctx.count('cells', 'inf' if any(x < -1 for x in cells) else 'nan' if any(x == -1 for x in cells) else 'finite')
+        for k, v in input_classes(c).items(): ctx.count(k, v)
+        if not valid_call(c): raise RuntimeError('generator produced colour limits with an empty interval: ' + json.dumps(c['opts']))
+    return out
+
+
+def input_classes(c):
+    """the input dimensions added for the carried variables and the colour limits (recorded in the evidence)"""
+    out = {}
+    call, opts = c['call'], c['opts']
+    if c['kind'] in XY_KINDS and not c['auto'] and not isinstance(call['y'], list):
+        series = [s for p in expected(c) for s in p['series']]
+        for arg, key in (('y_err', 'ye'), ('x_err', 'xe'), ('c', 'c')):
+            if not call.get(arg) or (key == 'c' and c['kind'] != 'scatter'): continue
+            vals = [t for s in series for t in s.get(key, [])]
+            out['carried ' + arg] = ('NaN/inf at a drawn point' if any(not isinstance(t, int) for t in vals) else
+                                     'finite at every drawn point' if vals else 'no drawn point')
+    mapped = c['kind'] == 'heatmap' or opts.get('colors') is True or bool(call.get('c'))
+    if mapped:
+        coo = call['z'] if c['kind'] == 'heatmap' else (call.get('c') or call.get('z'))
+        cr = _crange(c['ds'], coo) if coo else None
+        if 'zlims' in opts and c['kind'] != 'heatmap': cr = tuple(opts['zlims'])
+        out['colour limits'] = f"vmin {limit_class(opts.get('vmin'), cr)}, vmax {limit_class(opts.get('vmax'), cr)}"
+        out['colour limits of'] = ('heatmap' if c['kind'] == 'heatmap' else c['kind'] + (' c=' if call.get('c') else ' colors=True')) + \
+            (': given' if ('vmin' in opts or 'vmax' in opts) else ': data range')
     return out
 
 
@@ -391,9 +591,21 @@ def search_cases(ctx):
 
 
 def shrink_candidates(c):
-    """smaller variants of a failing case: drop options one at a time"""
+    """smaller variants of a failing case: drop options one at a time (as long as the call stays a valid one)"""
     for k in list(c['opts']):
-        d = copy.deepcopy(c); del d['opts'][k]; yield d
+        d = copy.deepcopy(c); del d['opts'][k]
+        if valid_call(d): yield d
+
+
+def valid_call(c):
+    """explicit colour limits must leave a non-empty interval (given limit, else the end of the finite data range):
+    anything else is refused by matplotlib's Normalize and is not a plot the property speaks about"""
+    opts, call = c['opts'], c['call']
+    if opts.get('vmin') is None and opts.get('vmax') is None: return True
+    if not (c['kind'] == 'heatmap' or opts.get('colors') is True or call.get('c')): return True      # limits unused
+    if c['kind'] != 'heatmap' and not (call.get('c') or call.get('z')): return True
+    _, lo, hi = _norm(c, DS(c['ds']))
+    return bool(lo < hi)
 
 
 # ====================================================================== real run
@@ -436,7 +648,27 @@ def _fl(v):
     return 'nan' if math.isnan(v) else ('inf' if v > 0 else '-inf') if math.isinf(v) else v
 
 
-def _series_from_axes(ax, D, kind):
+def _bar_axes(cols, call):
+    """which error-bar collection of an ErrorbarContainer holds the y errors ('y': vertical bars) and which the x errors
+    ('x'): by geometry; a collection without a single drawn bar (every error NaN/inf) by elimination, else by what the
+    call asked for, else in matplotlib's order (x bars are added before y bars)"""
+    kinds = []
+    for col in cols:
+        full = [sg for sg in col.get_segments() if len(sg) >= 2]
+        vert = bool(full) and all(float(sg[0][0]) == float(sg[1][0]) for sg in full)
+        horiz = bool(full) and all(float(sg[0][1]) == float(sg[1][1]) for sg in full)
+        kinds.append('y' if vert and not horiz else 'x' if horiz and not vert else '?')
+    want = [a for a, key in (('x', 'x_err'), ('y', 'y_err')) if call.get(key)]
+    if len(kinds) == 1 and kinds[0] == '?': kinds = [want[0] if len(want) == 1 else 'y']
+    if len(kinds) == 2:
+        other = {'x': 'y', 'y': 'x'}
+        if kinds[0] == '?' and kinds[1] != '?': kinds[0] = other[kinds[1]]
+        elif kinds[1] == '?' and kinds[0] != '?': kinds[1] = other[kinds[0]]
+        elif kinds == ['?', '?']: kinds = ['x', 'y']
+    return kinds
+
+
+def _series_from_axes(ax, D, kind, call):
     from matplotlib.collections import PathCollection, QuadMesh, LineCollection
     from matplotlib.patches import Polygon
     from matplotlib.container import ErrorbarContainer
@@ -458,18 +690,15 @@ def _series_from_axes(ax, D, kind):
                  'lw': float(ln.get_linewidth())}
             if k is not None:
                 xs, ys = np.asarray(ln.get_xdata(orig=True), float), np.asarray(ln.get_ydata(orig=True), float)
-                for col in k.lines[2]:
+                cols = list(k.lines[2])
+                for col, bar in zip(cols, _bar_axes(cols, call)):
                     segs = col.get_segments()
                     if len(segs) != len(xs):
                         s['bars_bad'] = f'{len(segs)} error bars for {len(xs)} points'; continue
-                    full = [sg for sg in segs if len(sg) >= 2]
-                    if len(segs) == 0:
-                        s.setdefault('ye', []); s.setdefault('xe', []); continue
-                    vert = all(float(sg[0][0]) == float(sg[1][0]) for sg in full)
-                    horiz = all(float(sg[0][1]) == float(sg[1][1]) for sg in full)
+                    # a bar whose length is NaN/inf is held as an empty segment (nothing is drawn for it): 'nan'
                     half = lambda sg, ax: D.decode((sg[1][ax] - sg[0][ax]) / 2) if len(sg) >= 2 else 'nan'
                     at = lambda sg, ax: D.decode(sg[0][ax]) if len(sg) >= 2 else 'nan'
-                    if vert and not (horiz and 'ye' in s):
+                    if bar == 'y':
                         s['ye'] = [half(sg, 1) for sg in segs]
                         s['ye_at'] = [at(sg, 0) for sg in segs]
                     else:
@@ -479,13 +708,18 @@ def _series_from_axes(ax, D, kind):
     elif kind == 'scatter':
         for pc in ax.collections:
             if not isinstance(pc, PathCollection): continue
-            off = np.ma.filled(pc.get_offsets(), np.nan)
+            # the points the collection was given; matplotlib masks (does not render) a point whose colour value is
+            # NaN/inf - the colour map has no colour for it - but keeps its position under the mask: 'hidden'
+            offs = pc.get_offsets()
+            off = np.asarray(np.ma.getdata(offs), float).reshape(-1, 2)
             lab = pc.get_label()
             s = {'label': None if (lab is None or str(lab).startswith('_')) else str(lab),
-                 'x': D.decode_arr(off[:, 0]) if len(off) else [], 'y': D.decode_arr(off[:, 1]) if len(off) else []}
+                 'x': D.decode_arr(off[:, 0]) if len(off) else [], 'y': D.decode_arr(off[:, 1]) if len(off) else [],
+                 'hidden': [bool(m) for m in np.ma.getmaskarray(offs).reshape(-1, 2).any(axis=1)]}
             arr = pc.get_array()
             if arr is not None:
-                s['c'] = D.decode_arr(arr)
+                s['c'] = D.decode_arr(np.ma.getdata(arr))
+                s['vmin'], s['vmax'], s['norm'] = _fl(pc.norm.vmin), _fl(pc.norm.vmax), type(pc.norm).__name__
                 pc.update_scalarmappable()
             s['colors'] = [plotds.rgba(tuple(fc)) for fc in pc.get_facecolors()]
             out.append(s)
@@ -529,7 +763,7 @@ def run_real(c, ctx):
             if plotds.is_colorbar(ax):
                 obs['colorbar'] = True; continue
             p = {'pos': list(plotds.grid_pos(ax)), 'title': ax.get_title(), 'ylabel': ax.get_ylabel(), 'xlabel': ax.get_xlabel(),
-                 'series': _series_from_axes(ax, D, c['kind'])}
+                 'series': _series_from_axes(ax, D, c['kind'], c['call'])}
             lg = ax.get_legend()
             p['legend'] = None if lg is None else [t.get_text() for t in lg.get_texts()]
             if c['kind'] == 'heatmap':
@@ -680,9 +914,8 @@ def _norm(c, D):
         else:
             lo, hi = float(min(vals)), float(max(vals))
     else:
-        fl = np.array([plotds.cell_float(t, D.off) for t in D.vars[coo]['cells']], float)
-        if c['kind'] == 'heatmap': fl = fl[np.isfinite(fl)]
-        lo, hi = (float(np.nanmin(fl)), float(np.nanmax(fl))) if fl.size and not np.all(np.isnan(fl)) else (math.nan, math.nan)
+        fl = [plotds.cell_float(t, D.off) for t in D.vars[coo]['cells'] if finite(t)]     # NaN / inf entries set no limit
+        lo, hi = (float(min(fl)), float(max(fl))) if fl else (math.nan, math.nan)
     zl = opts.get('zlims', (None, None))
     if c['kind'] != 'heatmap':
         if zl[0] is not None: lo = zl[0]
@@ -700,7 +933,10 @@ def _degenerate(c, D):
 
 
 def _qval(D, tok):
-    return D.tokval.get(tok, math.nan) if isinstance(tok, int) else math.nan
+    """float of a value token in either vocabulary (cell code / decoded)"""
+    if tok in (PINF, 'inf'): return math.inf
+    if tok in (NINF, '-inf'): return -math.inf
+    return D.tokval.get(tok, math.nan) if isinstance(tok, int) and tok >= 0 else math.nan
 
 
 def expected_line_colours(c, D, exp_series):
@@ -735,12 +971,25 @@ def _cmp_series(kind, got, want, where):
             if g['x'] != w['x'] or g['y'] != w['y']:
                 return (f'{where}: series {k} ({w["label"]}) draws points x={g["x"]} y={g["y"]} but the finite (x, y) pairs of '
                         f'the data are x={w["x"]} y={w["y"]}')
-            for key in ('c', 'ye', 'xe'):
-                if key in w and kind == 'scatter' and key != 'c': continue
-                if key in w and g.get(key) != w[key]:
-                    return f'{where}: series {k}: {key} values drawn {g.get(key)} but the data at the drawn points has {w[key]}'
-            if 'ye_at' in g and g['ye_at'] != w['x']: return f'{where}: series {k}: y error bars sit at x={g["ye_at"]}, points at {w["x"]}'
-            if 'xe_at' in g and g['xe_at'] != w['y']: return f'{where}: series {k}: x error bars sit at y={g["xe_at"]}, points at {w["y"]}'
+            if kind == 'scatter':
+                if 'c' in w and g.get('c') != w['c']:
+                    return f'{where}: series {k}: c values held {g.get("c")} but the data at the drawn points has {w["c"]}'
+                # every point is shown, except that a point has no colour (and is not rendered) where c is NaN/inf
+                hid = [not isinstance(t, int) for t in w['c']] if 'c' in w else [False] * len(w['x'])
+                if g.get('hidden', hid) != hid:
+                    return (f'{where}: series {k}: points hidden (masked) {g["hidden"]}, but only those with a non-finite colour '
+                            f'value may be: {hid}')
+                continue
+            for key, at, pos, axis in (('ye', 'ye_at', 'x', 'y'), ('xe', 'xe_at', 'y', 'x')):
+                if key not in w: continue
+                # the bar of a drawn point has the length the error variable holds there; no bar where that is NaN/inf
+                bars = [t if isinstance(t, int) else 'nan' for t in w[key]]
+                if g.get(key) != bars:
+                    return (f'{where}: series {k}: {axis} error bars drawn {g.get(key)} but the error variable at the drawn points '
+                            f'holds {w[key]}')
+                sit = [p if isinstance(t, int) else 'nan' for p, t in zip(w[pos], w[key])]
+                if g.get(at) != sit:
+                    return f'{where}: series {k}: {axis} error bars sit at {pos}={g.get(at)}, the points are at {sit}'
     return None
 
 
@@ -768,6 +1017,7 @@ def _hist_check(D, got, want, where):
 
 def oracle(c, obs):
     if 'harness_exc' in obs: return None
+    if not valid_call(c): return None
     if 'err' in obs:
         return f'{("auto_" if c["auto"] else "") + c["kind"]} raised {obs["err"]}: {obs.get("msg")} for a valid call'
     if not obs['identical']:
@@ -802,7 +1052,8 @@ def oracle(c, obs):
                     return f'{where}: cells along {dim} are centred at {mids}, coordinates are {cs}'
             norm, lo, hi = _norm(c, D)
             if not (math.isnan(lo) or lo == hi or (_fl(lo) == m['vmin'] and _fl(hi) == m['vmax'])):
-                return f'{where}: colour limits {m["vmin"]}..{m["vmax"]}, z spans {lo}..{hi}'
+                return (f'{where}: colour limits {m["vmin"]}..{m["vmax"]}, they should be {lo}..{hi} (vmin/vmax as given, else the '
+                        f'finite range of z)')
             if m['norm'] != type(norm).__name__: return f'{where}: norm {m["norm"]}'
             if m['cmap'] != _cmap(c['opts'], kind).name: return f'{where}: colour map {m["cmap"]}, chosen {_cmap(c["opts"], kind).name}'
             continue
@@ -822,10 +1073,15 @@ def oracle(c, obs):
                             f'{"c variable" if c["call"].get("c") else "z coordinate"} is {col}')
         if kind == 'scatter' and c['call'].get('c') and not _degenerate(c, D):
             cm = _cmap(c['opts'], kind)
-            norm, _, _ = _norm(c, D)
+            norm, lo, hi = _norm(c, D)
             for k, (s, ws) in enumerate(zip(g['series'], w['series'])):
+                if (s.get('vmin'), s.get('vmax')) != (_fl(lo), _fl(hi)):
+                    return (f'{where}: series {k}: colours normalised on {s.get("vmin")}..{s.get("vmax")}, the limits are {lo}..{hi} '
+                            f'(vmin/vmax as given, else the finite range of c)')
+                if s.get('norm') != type(norm).__name__: return f'{where}: series {k}: norm {s.get("norm")}'
                 exp = [plotds.rgba(cm(norm(_qval(D, t)))) for t in ws['c']]
-                if len(s['colors']) != len(exp) or any(not plotds.same_rgba(a, b) for a, b in zip(s['colors'], exp)):
+                vis = [i for i, t in enumerate(ws['c']) if isinstance(t, int)]
+                if len(s['colors']) != len(exp) or any(not plotds.same_rgba(s['colors'][i], exp[i]) for i in vis):
                     return (f'{where}: series {k}: point colours {s["colors"][:3]}… are not the colour map at the normalised c '
                             f'values {exp[:3]}… (norm {norm.vmin}..{norm.vmax})')
         lst = c['opts'].get('colors')
@@ -874,7 +1130,34 @@ def model_request(c, obs):
     if c['kind'] == 'heatmap': dflt = {'legend': False, 'colorbar': True}
     rq['legend'] = opts.get('legend', dflt['legend'])
     rq['colorbar'] = opts.get('colorbar', dflt['colorbar'])
+    # colour limits: the model does not compute with floats; all Python can tell about a limit without comparing it with
+    # data is whether it was given and whether it is a false number
+    for k in ('vmin', 'vmax'):
+        rq[k] = None if opts.get(k) is None else {'zero': bool(opts[k] == 0)}
+    zl = opts.get('zlims') or (None, None)
+    rq['zlims'] = [zl[0] is not None, zl[1] is not None]
     return rq
+
+
+def _model_norm(c, D, rep):
+    """the normalisation the MODEL describes: for each end where the limit comes from (the value given, the zlims
+    entry, the finite range of the colour quantity); None when the model leaves an end unset"""
+    import matplotlib.colors as mc
+    opts = c['opts']
+    src = rep.get('limits')
+    if not src: return _norm(c, D)
+    saved = dict(opts)
+    try:
+        for k in ('vmin', 'vmax', 'zlims'): opts.pop(k, None)
+        _, dlo, dhi = _norm(c, D)                       # finite data range of the colour quantity
+    finally:
+        opts.clear(); opts.update(saved)
+    zl = opts.get('zlims') or (None, None)
+    pick = lambda how, given, z, data: {'given': given, 'zlim': z, 'data': data, 'unset': None}[how]
+    lo = pick(src[0], opts.get('vmin'), zl[0], dlo)
+    hi = pick(src[1], opts.get('vmax'), zl[1], dhi)
+    if lo is None or hi is None: return None, lo, hi
+    return (mc.LogNorm if opts.get('colormap_log') else mc.Normalize)(vmin=lo, vmax=hi), lo, hi
 
 
 def _mcell(t):
@@ -883,6 +1166,7 @@ def _mcell(t):
 
 def compare(c, obs, rep):
     if 'harness_exc' in obs: return None
+    if not valid_call(c): return None
     if 'err' in obs or 'err' in rep:
         return None if ('err' in obs) == ('err' in rep) else f'error mismatch: real {obs.get("err")} model {rep.get("err")}'
     kind = c['kind']
@@ -900,6 +1184,12 @@ def compare(c, obs, rep):
             want = [[('m' if t < 0 else t) for t in r] for r in m['mesh']]
             if g['meshes'][0]['shape'] != [len(want), len(want[0]) if want else 0] or g['meshes'][0]['cells'] != [t for r in want for t in r]:
                 return f'panel {pos}: mesh real {g["meshes"][0]["cells"]} model {want}'
+            D = DS(c['ds'])
+            _, lo, hi = _model_norm(c, D, rep)
+            if lo is None or hi is None: return f'panel {pos}: the model leaves a colour limit unset ({rep.get("limits")})'
+            if not (math.isnan(lo) or math.isnan(hi) or lo == hi or (_fl(lo) == g['meshes'][0]['vmin'] and _fl(hi) == g['meshes'][0]['vmax'])):
+                return (f'panel {pos}: colour limits real {g["meshes"][0]["vmin"]}..{g["meshes"][0]["vmax"]}, model {lo}..{hi} '
+                        f'({rep.get("limits")})')
             continue
         if len(g['series']) != len(m['series']): return f'panel {pos}: {len(g["series"])} series, model {len(m["series"])}'
         for k, (s, ms) in enumerate(zip(g['series'], m['series'])):
@@ -909,8 +1199,10 @@ def compare(c, obs, rep):
             for key in ('x', 'y') + (('c',) if kind == 'scatter' else ('ye', 'xe')):
                 mv = ms.get(key)
                 if mv is None: continue
-                if s.get(key) != [_mcell(t) for t in mv]:
-                    return f'panel {pos} series {k}: {key} real {s.get(key)} model {[_mcell(t) for t in mv]}'
+                mv = [_mcell(t) for t in mv]
+                if key in ('ye', 'xe'): mv = [t if isinstance(t, int) else 'nan' for t in mv]     # no bar of NaN/inf length
+                if s.get(key) != mv:
+                    return f'panel {pos} series {k}: {key} real {s.get(key)} model {mv}'
         if kind == 'histogram':
             # the model says which values are binned; the drawn densities must be those of exactly these values
             D = DS(c['ds'])
@@ -927,9 +1219,13 @@ def compare(c, obs, rep):
     if kind != 'heatmap' and rep.get('coloured') and not _degenerate(c, DS(c['ds'])):
         D = DS(c['ds'])
         cm = _cmap(c['opts'], kind)
-        norm, _, _ = _norm(c, D)
+        norm, lo, hi = _model_norm(c, D, rep)
+        if norm is None: return f'the model leaves a colour limit unset ({rep.get("limits")})'
+        if not lo < hi: return None
         for pos, m in mp.items():
             for k, (s, ms) in enumerate(zip(got[pos]['series'], m['series'])):
+                if kind == 'scatter' and 'vmin' in s and (s['vmin'], s['vmax']) != (_fl(lo), _fl(hi)):
+                    return f'panel {pos} series {k}: colour limits real {s["vmin"]}..{s["vmax"]}, model {lo}..{hi} ({rep.get("limits")})'
                 q = ms.get('q')
                 if q is None: continue
                 if 'lin' in q:
